@@ -7,7 +7,7 @@
 (* printed as <<"MISMATCH", json>> and classified against the open known   *)
 (* findings.  TraceAccepted requires that every line was consumed.         *)
 (***************************************************************************)
-EXTENDS Order, KnownFindings, Json, SequencesExt, FiniteSetsExt, Dpkg, MavenCV, SemVer, Pep440
+EXTENDS Order, KnownFindings, Json, SequencesExt, FiniteSetsExt, Dpkg, MavenCV, SemVer, Pep440, GemVersion
 
 CONSTANTS TraceFile,     \* path of the NDJSON trace
           Prop,          \* property id being judged, e.g. "C01"
@@ -59,9 +59,9 @@ MatrixC01(ev) ==
 
 (* Reference orders (C08-C14): the observed sign of every in-scope pair is the  *)
 (* sign the reference operator computes on the same two texts.                *)
-RefKey(prop, eco, cs) == CASE prop = "C10" -> DKey(cs) [] prop = "C08" -> SvParse(cs) [] prop = "C09" -> PKey(cs) [] prop = "C11" -> RKey(cs) [] prop = "C12" -> MvKey(cs)
-RefScope(prop, eco, cs) == CASE prop = "C10" -> DInScope(cs) [] prop = "C08" -> SvInScope(eco, cs) [] prop = "C09" -> PInScope(cs) [] prop = "C11" -> RInScope(cs) [] prop = "C12" -> MvInScope(cs)
-RefCmpKey(prop, x, y) == CASE prop = "C10" -> DCmpKey(x, y) [] prop = "C08" -> SvCmpKey(x, y) [] prop = "C09" -> PCmpKey(x, y) [] prop = "C11" -> RCmpKey(x, y) [] prop = "C12" -> MvCmpKey(x, y)
+RefKey(prop, eco, cs) == CASE prop = "C10" -> DKey(cs) [] prop = "C08" -> SvParse(cs) [] prop = "C09" -> PKey(cs) [] prop = "C13" -> GCanonical(cs) [] prop = "C11" -> RKey(cs) [] prop = "C12" -> MvKey(cs)
+RefScope(prop, eco, cs) == CASE prop = "C10" -> DInScope(cs) [] prop = "C08" -> SvInScope(eco, cs) [] prop = "C09" -> PInScope(cs) [] prop = "C13" -> GInScope(cs) [] prop = "C11" -> RInScope(cs) [] prop = "C12" -> MvInScope(cs)
+RefCmpKey(prop, x, y) == CASE prop = "C10" -> DCmpKey(x, y) [] prop = "C08" -> SvCmpKey(x, y) [] prop = "C09" -> PCmpKey(x, y) [] prop = "C13" -> GCmpKey(x, y) [] prop = "C11" -> RCmpKey(x, y) [] prop = "C12" -> MvCmpKey(x, y)
 
 MatrixRef(ev) ==
   LET n   == ev.n
